@@ -376,7 +376,18 @@ impl Sim {
 
     /// The hook entry: a file-system primitive is about to execute.
     pub fn point(self: &Arc<Self>, pid: usize, kind: &'static str, path: &Path) -> io::Result<()> {
-        let detail = self.rel(path);
+        // Reads of immutable content-addressed objects happen in HashMap
+        // iteration order inside jj (std RandomState, no seam). Their order
+        // cannot influence the file-system state, so only the directory is
+        // logged: the log stays a function of the seed.
+        let detail = if matches!(
+            kind,
+            "opstore:read_operation" | "opstore:read_view" | "index:read_op_link" | "table:load_segment"
+        ) {
+            format!("{}/*", self.rel(path.parent().unwrap_or(path)))
+        } else {
+            self.rel(path)
+        };
         let mut inner = self.inner.lock().unwrap();
         if inner.shutdown || inner.procs[pid].status == Status::Dead {
             // Called from a Drop handler while a killed thread unwinds.
@@ -566,15 +577,23 @@ impl Sim {
                             let cmd = inner.procs[pid].cmd;
                             inner.seq += 1;
                             let seq = inner.seq;
+                            // A panic caused by an injected I/O error (jj's
+                            // debug-assertion-only re-merge unwraps) is just
+                            // a failed command.
+                            let injected = msg.contains("injected:");
                             inner.log.push(Event {
                                 seq,
                                 pid,
                                 cmd,
-                                kind: "PANIC",
+                                kind: if injected { "note:panic_on_injected_ioerr" } else { "PANIC" },
                                 detail: msg.clone(),
                             });
-                            inner.aborted.get_or_insert(format!("panic in p{pid}: {msg}"));
-                            inner.stop = true;
+                            if injected {
+                                inner.bump("panic_on_injected_ioerr");
+                            } else {
+                                inner.aborted.get_or_insert(format!("panic in p{pid}: {msg}"));
+                                inner.stop = true;
+                            }
                         } else {
                             // Killed: status already Dead (or shutdown).
                             return;
